@@ -55,6 +55,15 @@ class UnitV:
     def __pow__(self, n):
         return UnitV(self.scale ** n, {k: v * n for k, v in self.dim.items()})
 
+    def __eq__(self, o):
+        return isinstance(o, UnitV) and self.same(o)
+
+    def __ne__(self, o):
+        return not self.__eq__(o)
+
+    def __hash__(self):
+        return 0
+
     def same(self, o):
         return self.dim == o.dim and self.scale == o.scale
 
